@@ -912,6 +912,80 @@ def describe_gates(gates):
     return strip_raw(gates)
 
 
+QUARTER = math.pi / 4
+
+
+def rand_angle(rng):
+    """a real angle for the real-code oracle: a generic float, or exactly / almost on the special grids where
+    trigonometric shortcuts and isclose-style thresholds switch (multiples of π/4 over several turns, the π/64 grid,
+    a grid point ± a tiny offset on either side of the usual 1e-8 tolerances)"""
+    r = rng.random()
+    if r < 0.4:
+        return rng.uniform(-7, 7)
+    if r < 0.8:
+        return rng.randint(-16, 16) * QUARTER
+    if r < 0.9:
+        return rng.randint(-128, 128) * UNIT
+    return rng.randint(-8, 8) * QUARTER + rng.choice([-1, 1]) * rng.choice([1e-12, 1e-9, 1e-7, 1e-5])
+
+
+def counter_history(bits, q, p):
+    """Pauli specs that leave `bits` unchanged and advance the phase counter by p quarter turns: (X·Y on qubit q)^k,
+    X·Y|0> = i|0>, X·Y|1> = −i|1>"""
+    k = p % 4 if not (bits >> q) & 1 else (-p) % 4
+    return [spec("Y", [q]), spec("X", [q])] * k
+
+
+def k_sup_grid(ctx: Ctx):
+    """comp_basis_superposition on the REAL code against the dense oracle, exhaustively on the special values: every
+    pair a ≠ b on 1–2 (thorough: 3) qubits × every pair of phase counters mod 4 × θ, φ on the π/4 grid (so that the
+    total relative phase φ + (pb − pa)π/2 takes every multiple of π/4, from every decomposition) and just off it"""
+    from quri_parts.core.state import ComputationalBasisState, comp_basis_superposition
+
+    from oracle import c16_state as orc
+
+    rng = ctx.rng
+    thetas = [QUARTER, 0.7] if ctx.quick() else [QUARTER, 0.7, -QUARTER, 3 * QUARTER, math.pi / 8, 5 * QUARTER]
+    ks = range(-4, 5) if ctx.quick() else range(-8, 9)
+    phis = [k * QUARTER for k in ks] + [k * QUARTER + e for k in (-2, 0, 2, 6) for e in (1e-9, -1e-7)]
+    n_eval = 0
+    for n in range(1, ctx.n(2, 3) + 1):
+        pairs = [(a, b) for a in range(1 << n) for b in range(1 << n) if a != b]
+        if n == 3:
+            pairs = rng.sample(pairs, 16)
+        for a, b in pairs:
+            for pa, pb in itertools.product(range(4), repeat=2):
+                ha = counter_history(a, rng.randrange(n), pa)
+                hb = counter_history(b, rng.randrange(n), pb)
+                ok, ss = attempt(lambda: (ComputationalBasisState(n, bits=a).with_gates_applied(real_seq("L", ha)),
+                                          ComputationalBasisState(n, bits=b).with_gates_applied(real_seq("L", hb))))
+                if not ok:
+                    ctx.witness("pauli-track-rejects", f"a valid Pauli gate list is rejected: {ss}", {"n": n, "a": a, "b": b, "gates_a": describe_gates(ha), "gates_b": describe_gates(hb)})
+                    continue
+                sa, sb = ss
+                if read_descr(sa) != (n, a, pa) or read_descr(sb) != (n, b, pb):
+                    ctx.witness("pauli-track", f"(X·Y)^k histories: expected {(n, a, pa)} and {(n, b, pb)}, got {read_descr(sa)} and {read_descr(sb)}",
+                                {"n": n, "gates_a": describe_gates(ha), "gates_b": describe_gates(hb)})
+                    continue
+                for theta in thetas:
+                    for phi in phis:
+                        inp = {"n": n, "a": [a, pa], "b": [b, pb], "theta": theta, "phi": phi,
+                               "total_relative_phase_quarter_turns": phi / (2 * QUARTER) + pb - pa}
+                        ok, st = attempt(lambda: comp_basis_superposition(sa, sb, theta, phi))
+                        n_eval += 1
+                        if not ok:
+                            ctx.witness("superposition-rejects", f"comp_basis_superposition raised {st} on same-size states", inp)
+                            continue
+                        okv, d = attempt(lambda: orc.phase_defect(orc.run_circuit(n, st.circuit.gates), orc.superposition_target(n, a, pa, b, pb, theta, phi)))
+                        if not okv or d > NUM_TOL or st.qubit_count != n:
+                            ctx.witness("superposition-state",
+                                        "the circuit does not prepare cosθ·i^pa|a> + e^(iφ)sinθ·i^pb|b> up to a global phase (defect "
+                                        + (f"{d:.3g}" if okv else str(d)) + ")",
+                                        dict(inp, circuit=canon_real_gates(st.circuit.gates)[:400]))
+    ctx.count("sup_grid.evaluations", None, n_eval)
+    ctx.evaluations += n_eval
+
+
 def build_phase_history(rng, n, bits, want_len):
     """a list of well-formed Pauli-kind gates (public factories) to reach interesting phase counters"""
     return [rand_pauli_gate(rng, n)[0] for _ in range(want_len)] if n > 0 else []
@@ -1011,9 +1085,7 @@ def oracle_search(ctx: Ctx, budget_s: float, min_iter: int):
                 ctx.witness("pauli-track", "a Pauli-only gate list did not yield a ComputationalBasisState", {"n": n, "bits": bits2, "gates": describe_gates(hist2)})
                 return
             _, b2, p2 = s2._as_tuple()
-            theta, phi = rng.uniform(-7, 7), rng.uniform(-7, 7)
-            if rng.random() < 0.2:
-                theta = rng.choice([0.0, math.pi / 2, math.pi / 4, -math.pi / 4])
+            theta, phi = rand_angle(rng), rand_angle(rng)
             tgt = orc.sparse_target(b1, p1, b2, p2, theta, phi)
             nt = orc.sparse_norm(tgt)
             if nt < 1e-3:
@@ -1506,15 +1578,15 @@ def obj_angle_forms(ctx: Ctx, rng):
             v = rng.randint(-7, 7)
             return v, float(v)
         if name == "np.float64":
-            v = rng.uniform(-7, 7)
+            v = rand_angle(rng)
             return np.float64(v), v
         if name == "np.int64":
             v = rng.randint(-7, 7)
             return np.int64(v), float(v)
         if name == "big":
-            v = rng.uniform(-1, 1) + 2 * math.pi * rng.randint(-40, 40)
+            v = rng.choice([rng.uniform(-1, 1), rng.randint(-4, 4) * QUARTER]) + 2 * math.pi * rng.randint(-40, 40)
             return v, v
-        v = rng.uniform(-7, 7)
+        v = rand_angle(rng)
         return v, v
 
     ft, fp = rng.choice(["int", "np.float64", "np.int64", "float", "big"]), rng.choice(["int", "np.float64", "np.int64", "float", "big"])
@@ -1772,6 +1844,7 @@ def run(ctx: Ctx, replay=None) -> int:
         k_hist(ctx, reg)
         k_sem(ctx)
     with ctx.timed("objects"):
+        k_sup_grid(ctx)
         k_objects(ctx)
         k_bitutils(ctx)
     with ctx.timed("oracle_validation"):
